@@ -11,8 +11,9 @@ operations incl. undo/redo on the real object):
          internal  save_tracks              → load_tracks(dir, solution=True)
        oracle: canonical state before == canonical state after (nodes, edges, time, position,
        track id; lineage id / loaded features / segmentation for geff+internal; scale + registry
-       for internal).  Floats exact (repr) except CSV positions: pandas' default float parser is
-       not last-bit exact, tolerance 1 ulp (counted).
+       for internal).  Floats exact (repr) except values re-imported from CSV: pandas' default
+       float parser is not last-bit exact (observed: up to 2 ulp); tolerance CSV_ULPS = 4 ulp,
+       every use is counted.  The CSV FILE itself is compared exactly with the model's encode.
        correspondence: (a) the FILE the exporter wrote, read back with csv / zarr / json+numpy,
        vs the Lean model's `encode`; (b) the re-imported object vs the model's `decode ∘ encode`.
   C15  random selections (empty, roots, leaves below divisions, several lineages, all, random),
@@ -491,7 +492,7 @@ def _num(c: str) -> float | None:
 
 
 def snap_pos(T2: dict, T: dict) -> int:
-    """CSV only: positions of the re-imported table that are within 1 ulp of the original are
+    """CSV only: positions of the re-imported table that are within CSV_ULPS of the original are
     replaced by the original canonical value (documented tolerance); returns how many differed"""
     orig = {n["id"]: n for n in T["nodes"]}
     moved = 0
@@ -733,7 +734,7 @@ def check_c14(tracks, co: CaseOut, fmts=("csv", "csv-display", "geff", "internal
                     T2 = table(t2)
                     moved = snap_pos(T2, T)
                     if moved:
-                        co.count("csv:positions-within-1ulp-not-bit-equal", moved)
+                        co.count("csv:floats-within-tolerance-not-bit-equal", moved)
                     for s, w in diff_tables("csv", T, T2, [], []):
                         co.fail(s, w)
                     if model:
@@ -775,7 +776,7 @@ def check_c14(tracks, co: CaseOut, fmts=("csv", "csv-display", "geff", "internal
                     T2 = table(t2)
                     moved = snap_pos(T2, T)
                     if moved:
-                        co.count("csv:positions-within-1ulp-not-bit-equal", moved)
+                        co.count("csv:floats-within-tolerance-not-bit-equal", moved)
                     _snap_feats(T2, T, loaded)
                     fmt = "csv-display" if "lineage_id" in nm else "csv-display-nolin"
                     for s, w in diff_tables(fmt, T, T2, [k for k in loaded if k in ks], []):
@@ -1575,7 +1576,7 @@ def _shard(args) -> Result:
     return res
 
 
-BUDGET = {"quick": {"C14": 288, "C15": 176, "C16": 256}, "thorough": {"C14": 4000, "C15": 2400, "C16": 3200}}
+BUDGET = {"quick": {"C14": 288, "C15": 176, "C16": 256}, "thorough": {"C14": 3200, "C15": 1200, "C16": 3200}}
 
 
 def run(prop: str, tier: str, seed: int, intensify: bool = False) -> Result:
@@ -1603,7 +1604,7 @@ def run(prop: str, tier: str, seed: int, intensify: bool = False) -> Result:
                      f"evaluations {ev}; model-vs-code comparisons {res.compared_steps}; wall {(_time.time() - t0):.1f}s")
     if prop == "C14":
         res.notes.append(f"CSV: pandas' default float parser is not last-bit exact; re-imported float values within "
-                         f"{CSV_ULPS} ulp are accepted (counted as csv:positions-within-1ulp-not-bit-equal); the file itself "
+                         f"{CSV_ULPS} ulp are accepted (counted as csv:floats-within-tolerance-not-bit-equal); the file itself "
                          "is compared exactly with the model's encode")
         res.notes.append("GEFF with a label array: the importer's own seg check needs a loaded position to lie inside its "
                          "mask; for non-convex masks the store is re-imported with the position recomputed from the array "
